@@ -173,8 +173,67 @@ pub fn gen_case<R: Rng>(rng: &mut R, real: bool) -> Case {
     }
 }
 
+/// The CLI's own pipeline: stages 1 and 3 run at kt_start = 0 with the user's other settings.
+/// The hook log gives each replica's score entering every stage and its final score.
+fn cli_leg(ctx: &Ctx, st: &mut Stats) {
+    use crate::observe::cli;
+    use crate::props::c10::parse_hook_log;
+    let exe = match ctx.args.cli.clone() {
+        Some(e) => e,
+        None => return,
+    };
+    let argvs: Vec<(Vec<&str>, Vec<&str>)> = vec![
+        (vec!["--replications", "6", "--steps", "3000", "--inner-steps", "300", "--kt-finish", "0.001"], vec!["p2", "polygon", "--sides", "4"]),
+        (vec!["--replications", "6", "--steps", "2000", "--inner-steps", "100"], vec!["p2mg", "trimer"]),
+        (vec!["--replications", "4", "--steps", "1500", "--inner-steps", "100", "--kt-finish", "0.01", "-p", "LJ"], vec!["p1g1", "trimer"]),
+        (vec!["--replications", "6", "--steps", "2500", "--inner-steps", "250", "--kt-finish", "0.1", "--convergence", "1e-5"], vec!["p2gg", "circle"]),
+        (vec!["--replications", "4", "--steps", "2000", "--inner-steps", "50", "--kt-ratio", "0.2", "-p", "LJ"], vec!["p2", "circle"]),
+        (vec!["--replications", "6", "--steps", "4000", "--inner-steps", "1000", "--kt-finish", "10"], vec!["p1", "polygon", "--sides", "5"]),
+    ];
+    for (i, (pre, pos)) in argvs.iter().enumerate() {
+        st.eval();
+        let out = cli::run(&exe, &format!("c05-{}-{}", ctx.seed, i), pre, pos, &[("RAYON_NUM_THREADS", "4".to_string())], 300);
+        if out.status != Some(0) {
+            st.count("cli_runs_that_failed(not a C05 event; C20 decides)");
+            continue;
+        }
+        let ev = parse_hook_log(&out.hook_log);
+        let case = json!({"Cli": {"pre": pre, "pos": pos}});
+        // per thread, events are sequential: stage1 -> stage2 -> stage3 -> done of one replica
+        let mut checked = 0;
+        for (k, e) in ev.iter().enumerate() {
+            if e.kind != "stage" || (e.stage != 1 && e.stage != 3) {
+                continue;
+            }
+            let next = ev[k + 1..].iter().find(|d| d.thread == e.thread);
+            if let Some(n) = next {
+                let expect_next = if e.stage == 1 { n.kind == "stage" && n.stage == 2 && n.replica == e.replica } else { n.kind == "done" };
+                if !expect_next {
+                    continue;
+                }
+                if let (Some(before), Some(after)) = (e.score, n.score) {
+                    checked += 1;
+                    if after < before {
+                        st.violation(Violation {
+                            kind: "c05.cli".into(),
+                            signature: "cli:zero-temperature-stage-lowers-the-score".into(),
+                            case: case.clone(),
+                            detail: json!({"replica": e.replica, "stage": e.stage, "score_entering_the_stage": before, "score_leaving_it": after}),
+                        });
+                        return;
+                    }
+                }
+            }
+        }
+        st.add("cli_zero_temperature_stages_checked", checked);
+        if checked > 0 {
+            st.nontrivial(hash_str(&format!("{:?}{:?}", pre, pos)));
+        }
+    }
+}
+
 pub fn run(ctx: &Ctx) {
-    ctx.set_rule("optimise_state with kt_start = 0 over the configuration space: kt_finish in {unset, 0, 1e-3, 0.1, 10} x kt_ratio in {unset, 0, 0.1, 0.5, 1} x steps 1..20000 x inner_steps (equal, smaller, non-dividing, larger than steps) x convergence {unset, 0, 1e-6, 1} x max_step 1e-4..1 x seeds, built through the CLI's argument parser (the only way to leave kt_finish unset) and through the builder API; on scripted states (random better/equal/worse/undefined scores; bowl landscapes with an undefined region) and on real hard and LJ states of all groups wrapped in a Spy. The trace monitor resolves accept/reject decisions from the parameter vectors; event = a resolved acceptance of a worse score, or a returned score below the input score (monitor's belief, and re-scored result for real states). Non-trivial = >= 2 inner loops and >= 1 worse proposal resolved; distinct by configuration");
+    ctx.set_rule("optimise_state with kt_start = 0 over the configuration space: kt_finish in {unset, 0, 1e-3, 0.1, 10} x kt_ratio in {unset, 0, 0.1, 0.5, 1} x steps 1..20000 x inner_steps (equal, smaller, non-dividing, larger than steps) x convergence {unset, 0, 1e-6, 1} x max_step 1e-4..1 x seeds, built through the CLI's argument parser (the only way to leave kt_finish unset) and through the builder API; plus the real binary's own pipeline (hook log: score entering and leaving stages 1 and 3 of every replica); on scripted states (random better/equal/worse/undefined scores; bowl landscapes with an undefined region) and on real hard and LJ states of all groups wrapped in a Spy. The trace monitor resolves accept/reject decisions from the parameter vectors; event = a resolved acceptance of a worse score, or a returned score below the input score (monitor's belief, and re-scored result for real states). Non-trivial = >= 2 inner loops and >= 1 worse proposal resolved; distinct by configuration");
     let n_s = ctx.tier.pick(60u64, 3_000u64);
     let n_r = ctx.tier.pick(6u64, 250u64);
     let prev = std::panic::take_hook();
@@ -206,6 +265,9 @@ pub fn run(ctx: &Ctx) {
         }
     });
     std::panic::set_hook(prev);
+    let mut st = Stats::new();
+    cli_leg(ctx, &mut st);
+    ctx.merge(st);
     ctx.set_min_nontrivial(200);
 }
 
